@@ -193,23 +193,26 @@ NOT_YET = "check not built yet in this revision of /verif (work in progress; see
 
 # obligations added while strengthening against seeded changes (rounds 4-5): appended to the level text of the check
 ALSO = {
-    "C01": "the general mass-action class initialised directly for every order 0..3 (not only through Model); reactant lists with non-adjacent repeats",
-    "C02": "every expression is parsed a second time under the reversed species numbering; the users of the evaluator (general rate in its four modes, rules with and without a volume) replayed on the real build",
-    "C03": "a real model through the real plain interface with a net rate of either sign; missing parameter at every position; create_reaction leaves its arguments unmodified",
-    "C04": "general rates over n-ary min / max / abs; one parameter dictionary shared by several reactions",
+    "C01": "two-reaction structures that share one parameter dictionary object; the general mass-action class initialised directly for every order 0..3 (not only through Model); reactant lists with non-adjacent repeats",
+    "C02": "C float locals are rounded (engine), replay at generic points to the last place; step function: plain and volume-aware evaluation agree at equal arguments (also at 0); every expression is parsed a second time under the reversed species numbering; the users of the evaluator (general rate in its four modes, rules with and without a volume) replayed on the real build",
+    "C03": "output arrays with arbitrary prior contents and a spectator species; a refused model is refused on every later attempt; delayed lists with two entries; a real model through the real plain interface with a net rate of either sign; missing parameter at every position; create_reaction leaves its arguments unmodified",
+    "C04": "order-3/4 mass action with non-adjacent repeats; general rates over n-ary min / max / abs; one parameter dictionary shared by several reactions",
     "C06": "rules whose targets are all parameters never write a species (plain and volume rule pass)",
-    "C07": "first row = initial condition with rules applied: the real interface's rule passes over rules that mention t and volume; initialisation obligations of the delay+volume loop",
-    "C08": "rule / propensity / delay objects are stateless across executions; one model simulated twice on one stream",
-    "C10": "simulators without delay support (plain and volume loop) on delay models: both parts at the firing time, stoichiometric matrices untouched; queue re-timing when a queue is handed to the next simulation",
+    "C07": "deterministic rows: rules applied exactly once per row (self-referential and accumulator rule sets, parameter targets that mention the volume); first row = initial condition with rules applied: the real interface's rule passes over rules that mention t and volume; initialisation obligations of the delay+volume loop",
+    "C08": "one interface prepared / used repeatedly gives the same derivative and trajectories; rule / propensity / delay objects are stateless across executions; one model simulated twice on one stream",
+    "C10": "delayed stoichiometry with multiplicity (two entries per delayed list); non-positive (Gaussian / fixed) delays deliver at the firing time; simulators without delay support (plain and volume loop) on delay models: both parts at the firing time, stoichiometric matrices untouched; queue re-timing when a queue is handed to the next simulation",
     "C11": "general rates that carry their own volume scaling (volume inside quotients and powers) and the expression nodes' volume-aware evaluation; the division model replayed against the real class at start times other than 0",
-    "C12": "programs with several delayed / undelayed reactions in every order",
-    "C13": "species carrying both initialAmount and initialConcentration (second attribute written into the document text), hasOnlySubstanceUnits both ways",
-    "C14": "delayed mass-action reactions (three families, repeated reactants); exported parameter values equal the model's to the last digit",
-    "C16": "prior dictionary ordered differently from the parameter vector",
-    "C17": "lineage models with every kind of lineage rule / event copied before and after initialisation (same-seed behaviour); Schnitz objects with a mother outside the pickled set",
-    "C18": "the public wrappers as functions of the model's current parameters (query, set_params, query); a real model through the real interface with a net rate of either sign",
-    "C19": "division in the last grid interval; lineage queue step with an abstract single-cell simulation",
-    "C20": "copy followed by an operation on one of the two queues; re-timing keeps pending entries at their distance",
+    "C12": "several rules per target; species names that are substrings of the reserved words; programs with several delayed / undelayed reactions in every order",
+    "C13": "exact fractions in formulas; global parameters called t / volume; module-level state between imports as a suspicion decided by a 240-document batch replay; species carrying both initialAmount and initialConcentration (second attribute written into the document text), hasOnlySubstanceUnits both ways",
+    "C14": "programs whose reaction shares its parameter dictionary with an earlier one; delayed mass-action reactions (three families, repeated reactants); exported parameter values equal the model's to the last digit",
+    "C16": "a second interface over the same prior dictionary object (the caller's dictionary is left unchanged); prior dictionary ordered differently from the parameter vector",
+    "C17": "records with one daughter in either slot; models copied while edited after their last initialisation; lineage models with every kind of lineage rule / event copied before and after initialisation (same-seed behaviour); Schnitz objects with a mother outside the pickled set",
+    "C18": "dimerisation model and a model over species E / parameters N, I in the real-model job; large parameter values; the public wrappers as functions of the model's current parameters (query, set_params, query); a real model through the real interface with a net rate of either sign",
+    "C19": "the simulator object reused for several lineage simulations; general splitter with an explicit binomial key; division in the last grid interval; lineage queue step with an abstract single-cell simulation",
+    "C20": "reads into a reused buffer with prior contents; constructor at an arbitrary current time; copy followed by an operation on one of the two queues; re-timing keeps pending entries at their distance",
+    "C05": "array_sum and sample_discrete over up to 33 (thorough: 129) symbolic propensities as a job of their own",
+    "C09": "decay-to-exhaustion scenarios; accumulator (self-referential additive) rules; rules given to the constructor with their default frequency",
+    "C15": "measurement order different from the frame's column order (frame model with columns / loc); the uniform prior's closed support (replay at its ends)",
 }
 
 
